@@ -607,12 +607,13 @@ fn eval_assignment(env: &Env, par_lines: &[Vec<LineMap>]) -> Eval {
                     for (k, &(a, b)) in runs.iter().enumerate() {
                         let ind = if pl[k].li == 0 { cfg.ii } else { cfg.si };
                         let target = cfg.width.saturating_sub(display_width(ind));
+                        // widths in columns, measured on the fragments' text (not the cached fields)
                         let mut wsum = 0usize;
                         for mi in a..b {
-                            if mi > a && wsum + frs[mi].width + frs[mi].penalty.len() > target {
+                            if mi > a && wsum + ref_width(frs[mi].word) + ref_width(frs[mi].penalty) > target {
                                 why = "a fragment was added to a line although it did not fit";
                             }
-                            wsum += frs[mi].width + frs[mi].whitespace.len();
+                            wsum += ref_width(frs[mi].word) + ref_width(frs[mi].whitespace);
                         }
                         if a == b && k > 0 {
                             // first-fit opens a line only for a fragment that did not fit; only the
@@ -623,7 +624,7 @@ fn eval_assignment(env: &Env, par_lines: &[Vec<LineMap>]) -> Eval {
                             let (na, nb) = runs[k + 1];
                             if na < nb {
                                 let f = &frs[na];
-                                if wsum + f.width + f.penalty.len() <= target {
+                                if wsum + ref_width(f.word) + ref_width(f.penalty) <= target {
                                     why = "the first fragment of the next line would have fitted";
                                 }
                             }
@@ -651,7 +652,7 @@ fn eval_assignment(env: &Env, par_lines: &[Vec<LineMap>]) -> Eval {
                                 if runs.iter().any(|&(a, b)| a == b) {
                                     ev.check("C03-text-minimum-cost", false, &|| json!({"why": "empty line in an optimal-fit arrangement", "lines": lines_json(lines)}));
                                 } else {
-                                    let fr: Vec<Frag> = frs.iter().map(|w| Frag { w: w.width as f64, ws: w.whitespace.len() as f64, p: w.penalty.len() as f64 }).collect();
+                                    let fr: Vec<Frag> = frs.iter().map(|w| Frag { w: ref_width(w.word) as f64, ws: ref_width(w.whitespace) as f64, p: ref_width(w.penalty) as f64 }).collect();
                                     let pen = Pen { nline: p[0] as f64, overflow: p[1] as f64, fraction: p[2] as f64, short: p[3] as f64, hyphen: p[4] as f64 };
                                     let widths = [lw[0] as f64, lw[1] as f64];
                                     let lens: Vec<usize> = runs.iter().map(|&(a, b)| b - a).collect();
